@@ -156,7 +156,7 @@ func runC09(c *Ctx) {
 	c09EnableResult(c, k, helper)
 
 	// ---- newcfg-suppression -------------------------------------------------------------------
-	for _, i := range allInstrs(m) {
+	for _, i := range allInstrs(k.frame().fn) {
 		al, ok := i.(*ssa.Alloc)
 		if !ok || litTypeName(al) != ".newConfigEvent" {
 			continue
